@@ -20,6 +20,7 @@ type mergeCase struct {
 	Ranges [][2]int   `json:"ranges"`
 	Faults []mFault   `json:"faults"`
 	Super  bool       `json:"super"`
+	Loader string     `json:"loader"` // index loader of the input readers: "" default | disk | disk-shared (ONE loader value for all tables) | skiplist | map
 }
 
 type mFault struct {
@@ -191,6 +192,7 @@ func runMerge(args []string) error {
 		tr.emit(M{"t": "reset", "case": ci})
 		var readers []sstables.SSTableReaderI
 		tabsJSON := []M{}
+		sharedDisk := &sstables.DiskIndexLoader{}
 		for ti, t := range c.Tables {
 			dir := filepath.Join(base, fmt.Sprintf("t%d", ti))
 			if err := os.MkdirAll(dir, 0o700); err != nil {
@@ -215,7 +217,18 @@ func runMerge(args []string) error {
 			if err := w.Close(); err != nil {
 				return err
 			}
-			rd, err := sstables.NewSSTableReader(sstables.ReadBasePath(dir), sstables.ReadWithKeyComparator(cmp))
+			ropts := []sstables.ReadOption{sstables.ReadBasePath(dir), sstables.ReadWithKeyComparator(cmp)}
+			switch c.Loader {
+			case "disk":
+				ropts = append(ropts, sstables.ReadIndexLoader(&sstables.DiskIndexLoader{}))
+			case "disk-shared":
+				ropts = append(ropts, sstables.ReadIndexLoader(sharedDisk))
+			case "skiplist":
+				ropts = append(ropts, sstables.ReadIndexLoader(&sstables.SkipListIndexLoader{KeyComparator: cmp, ReadBufferSize: 4096}))
+			case "map":
+				ropts = append(ropts, sstables.ReadIndexLoader(&sstables.MapKeyIndexLoader[string]{ReadBufferSize: 4096, Mapper: strMapper{}}))
+			}
+			rd, err := sstables.NewSSTableReader(ropts...)
 			if err != nil {
 				return err
 			}
